@@ -68,6 +68,17 @@ Theorem C12_terms_within_one_image : forall a c r R, a_cell a = Some c -> WF a -
 Proof. exact replicate_terms_within_images. Qed.
 Print Assumptions C12_terms_within_one_image.
 
+(* counts: a*b*c*N atoms and a*b*c times as many bonds, angles, dihedrals and impropers *)
+Theorem C12_counts : forall a c ra rb rc R, a_cell a = Some c -> WF a ->
+  nonempty_tuples (bonds a) -> nonempty_tuples (angles a) -> nonempty_tuples (dihedrals a) -> nonempty_tuples (impropers a) ->
+  0 < ra -> 0 < rb -> 0 < rc -> replicate a (ra, rb, rc) = Some R ->
+  let M := ra * rb * rc in
+  natoms R = M * natoms a /\
+  length (k_tup (bonds R)) = M * length (k_tup (bonds a)) /\ length (k_tup (angles R)) = M * length (k_tup (angles a)) /\
+  length (k_tup (dihedrals R)) = M * length (k_tup (dihedrals a)) /\ length (k_tup (impropers R)) = M * length (k_tup (impropers a)).
+Proof. exact replicate_counts. Qed.
+Print Assumptions C12_counts.
+
 (* before fix D3 the cell was scaled column-wise; the row-wise model differs from it on a tilted cell with unequal factors *)
 Example C12_column_scaling_is_wrong :
   let c := ((10, 0, 0), (2, 9, 0), (1, 3, 8))%Z in
